@@ -219,8 +219,14 @@ def _dump_load(col, rule="C11.R5"):
         mm = S.match(v, ("tuple", (S.fcall("str", ("attr", S.V("t"), "taskid")), S.fcall("str", ("attr", S.V("t"), "expr")))))
         if mm is None and v[:1] == ("acc",):
             mm = S.match(v[2][0][2] if v[2] else None, ("tuple", (S.fcall("str", ("attr", S.V("t"), "taskid")), S.fcall("str", ("attr", S.V("t"), "expr")))))
-        if mm is None or not (mm["t"][:1] == ("elem",) and S.is_call_of(mm["t"][1], meth="find_tasks")):
+        if mm is None or mm["t"][:1] != ("elem",):
             ok, facts = False, S.show(v)
+            continue
+        dom = mm["t"][1]
+        whole = (S.is_call_of(dom, meth="find_tasks") and dom[1][1] == S.SELF and not dom[3]
+                 and (not dom[2] or dom[2] == (("const", "None"),))) or dom == S.mcall(S.sattr("tasks"), "values")
+        if not whole:
+            ok, facts = False, f"searched among {S.show(dom)[:120]} (not all tasks)"
     col.add(rule, "Manager.iter_expr_tasks_owner#yields-(str(target),str(expr))", ok, sx.loc(sx.fn),
             "the definitions copied are (str(taskid), str(expr)) of the tasks under the container", facts)
     # ---- copy_expr_from
